@@ -82,10 +82,45 @@ def adversarial(rng: random.Random, n: int, start_tid: int):
     return scs
 
 
+def apalache_inductive(chk: core.Check) -> None:
+    """Unbounded design-level safety of the recorder (spec/RecorderInd.tla) as an inductive invariant with Apalache
+    (thorough tier only, under a timeout; if Apalache stalls the TLC result on bounded ranges stands)."""
+    import re
+    import shutil
+    import subprocess
+    if shutil.which("apalache-mc") is None:
+        chk.tlc_runs.append({"what": "Apalache RecorderInd", "result": "apalache-mc not available"})
+        return
+    src = (core.SPEC_DIR / "RecorderInd.tla").read_text()
+    sdir = core.scratch()
+    for S, A in ((7, 7), (3, 2), (100, 1)):
+        name = f"RecorderInd_{S}_{A}"
+        text = src.replace("MODULE RecorderInd", f"MODULE {name}").replace("S == 7 ", f"S == {S} ").replace("A == 7 ", f"A == {A} ")
+        (sdir / f"{name}.tla").write_text(text)
+        results = []
+        for init, inv, length in (("Init", "IndInv", 0), ("InitInd", "IndInv", 1), ("InitInd", "NeverSkips", 0)):
+            try:
+                p = subprocess.run(["apalache-mc", "check", f"--init={init}", f"--inv={inv}", f"--length={length}",
+                                    f"--out-dir={sdir}/apa_{name}", str(sdir / f"{name}.tla")], capture_output=True, text=True,
+                                   timeout=300, cwd=str(sdir))
+                out = p.stdout + p.stderr
+                ok = "EXITCODE: OK" in out
+                bad = "violat" in out.lower() and not ok
+                results.append({"init": init, "inv": inv, "length": length, "ok": ok})
+                if bad:
+                    chk.violation("Design.RecorderInd." + inv, {"S": S, "A": A}, {"apalache": out[-2000:]})
+            except subprocess.TimeoutExpired:
+                results.append({"init": init, "inv": inv, "length": length, "ok": None, "note": "timeout"})
+        chk.tlc_runs.append({"what": f"Apalache inductive invariant RecorderInd S={S} A={A}", "obligations": results})
+        shutil.rmtree(sdir / f"apa_{name}", ignore_errors=True)
+
+
 def run(chk: core.Check, replay=None) -> None:
     core.use_repo()
     thorough = chk.tier == "thorough"
     loopsuite.design(chk, "C03")
+    if thorough:
+        apalache_inductive(chk)
     lattice.replay(chk, "C03", thorough)          # exact spec -> code replay of whole fire() results
     behs = loopsuite.gen_behaviours(chk, 3000 if thorough else 400, chk.seed + 3)
     loopsuite.object_replay(chk, "C03", behs)
